@@ -845,11 +845,22 @@ class Interp:
                     iid = ea.chof[sc["id"]]
                     if ea.pos.get(iid):
                         ea.pos[iid] = (ea.pos[iid][0], "find", 1, repr(p["v"]))
-                self.bind_pat_only(p, n["e"], ea)
+                if isinstance(sc, dict) and sc.get("k") == "tup" and p.get("k") == "ptup" and \
+                        len(p.get("pats") or []) == len(sc.get("es") or []):
+                    # match (a, b) { (P, Q) => .. }: component-wise `if let P = a && let Q = b`
+                    for q, e_ in zip(p["pats"], sc["es"]):
+                        if q.get("k") in ("_",):
+                            continue
+                        self.bind_let(q, e_, ea, True)
+                else:
+                    self.bind_pat_only(p, n["e"], ea)
                 if a.get("guard"):
                     self.expr(a["guard"], ea)
                     ea = self.apply(a["guard"], True, ea)
                 out = self.stmt(a["body"], ea, tail=tail)
+                if tail and isinstance(a["body"], dict) and a["body"].get("k") not in ("block", "if", "match", "ret"):
+                    # an arm whose body is a plain expression is a result of the function
+                    self.note_ok(a["body"], out or ea)
                 if not diverges(a["body"]):
                     outs.append(out or ea)
             if not outs:
@@ -1091,7 +1102,48 @@ class Interp:
             if not (base and need in env.prefix.get(base, set())):
                 problems.append("bounds:len>=%d" % need)
         verdict = "safe" if not problems else "finding"
+        if problems and all(p.startswith("boundary:") for p in problems):
+            # a bound whose value comes out of a construct the interpreter has no transfer function for (a value
+            # produced by match / if / a loop) is of unknown origin: nothing can be said either way
+            lost = [side for side in ("start", "end") if side in fs and self.lost_track(fs[side], 0)]
+            bad_sides = {p.split(":")[1].split("=")[0] for p in problems}
+            if bad_sides and bad_sides <= set(lost):
+                verdict = "unjudged"
         self.ledger.append(Site("P2", self.b, n, text, verdict, ";".join(problems)))
+
+    def _bindmap(self):
+        if hasattr(self, "_bm"):
+            return self._bm
+        bm = {}
+        for x in walk(self.b["body"]):
+            k = x.get("k")
+            if k in ("let", "letx") and x.get("pat") is not None:
+                for q in self.binds(x["pat"]):
+                    bm[q["id"]] = x.get("init")
+            elif k == "match":
+                for a in x.get("arms") or []:
+                    for q in self.binds(a.get("pat")):
+                        bm[q["id"]] = x.get("e")
+        self._bm = bm
+        return bm
+
+    def lost_track(self, e, depth):
+        e = peel(e)
+        if not isinstance(e, dict) or depth > 6:
+            return False
+        k = e.get("k")
+        if k in ("match", "if", "loop", "while"):
+            return True
+        if k == "block":
+            return bool(e.get("stmts")) or self.lost_track(e.get("expr"), depth + 1)
+        if k == "local":
+            init = self._bindmap().get(e.get("id"))
+            return init is not None and self.lost_track(init, depth + 1)
+        if k == "bin":
+            return self.lost_track(e.get("l"), depth + 1) or self.lost_track(e.get("r"), depth + 1)
+        if k == "mcall" and e.get("m") in ("unwrap", "expect", "unwrap_or", "unwrap_or_default", "min", "max"):
+            return self.lost_track(e.get("recv"), depth + 1)
+        return False
 
     def vec_site(self, n, env):
         bt = n.get("bt") or ""
